@@ -18,7 +18,7 @@ for d in seeded/*/; do
   name=$(basename $d)
   [ -n "$1" ] && [[ "$name" != $1* ]] && continue
   prop=$(python3 -c "import json;print(json.load(open('$d/meta.json'))['property'])")
-  if ! git -C $W apply $d/patch.diff 2>/dev/null; then echo "$name $prop PATCH-DOES-NOT-APPLY" | tee -a $out.tmp; continue; fi
+  if ! git -C $W apply /verif/$d/patch.diff 2>/dev/null; then echo "$name $prop PATCH-DOES-NOT-APPLY" | tee -a $out.tmp; continue; fi
   res=$(./check $prop --tier quick 2>&1 | tail -1)
   git -C $W checkout -- .
   case "$res" in FAIL*) echo "$name $prop CAUGHT :: $res" | tee -a $out.tmp;; *) echo "$name $prop MISSED :: $res" | tee -a $out.tmp;; esac
